@@ -217,9 +217,10 @@ SUV_LOCALS = [
 FACTORY = [
     # VLA `double m[d][d]` (CBMC 6.11 loses the contents of 2-D VLAs): flat array, row-major index i*d+j -- the definition of
     # C/C++ array indexing for row length d; d<=SQ_MAXD becomes an obligation
-    Rule("factory.vla.decl", r'double\s+m_real\[d\]\[d\]\s*;\s*double\s+m_imag\[d\]\[d\]\s*;',
-         'SQ_ASSERT(d<=SQ_MAXD); double m_real[SQ_MAXD*SQ_MAXD]; double m_imag[SQ_MAXD*SQ_MAXD];'),
-    Rule("factory.vla.index", r'\bm_(real|imag)\[([^\]\[]+)\]\[([^\]\[]+)\]', r'm_\1[(\2)*d+(\3)]'),
+    # 2-D scratch matrices (variable-length or fixed-size): flat storage indexed with the DECLARED row length, so a view with another stride is seen
+    Rule("factory.vla.decl", r'double\s+m_real\[([^\]\[]+)\]\[([^\]\[]+)\]\s*;\s*double\s+m_imag\[([^\]\[]+)\]\[([^\]\[]+)\]\s*;',
+         r'SQ_ASSERT((\1)<=SQ_MAXD && (\2)<=SQ_MAXD && (\1)==(\3) && (\2)==(\4)); const unsigned m_row_=(\2); double m_real[SQ_MAXD*SQ_MAXD]; double m_imag[SQ_MAXD*SQ_MAXD];'),
+    Rule("factory.vla.index", r'\bm_(real|imag)\[([^\]\[]+)\]\[([^\]\[]+)\]', r'm_\1[(\2)*m_row_+(\3)]'),
     Rule("factory.vla.row0", r'\bm_(real|imag)\[0\](?!\s*\[)', r'&m_\1[0]'),
     Rule("factory.array2d", r'\bsq_array_2D\s*\{', '(struct sq_array_2D){'),
     Rule("factory.cfm.propagate", r'(ComponentsFromMatrices\s*\((?:[^()]|\([^()]*\))*\)\s*;)', r'\1 SQ_PROPAGATE_D(v);'),
@@ -306,8 +307,8 @@ SQUIDS_C05 = [
     Rule("c05.distance", r'std::distance\s*\(\s*x\.begin\(\)\s*,\s*xit\s*\)', 'xit'),
     Rule("c05.buf.assign", r'\bbuf\.state\s*=\s*(\w+)\s*\*\s*(state\[[^\]]+\]\.rho\[nrh\])\s*;', r'op_assign_mul(&buf->state,&\2,\1,0);'),
     Rule("c05.buf.incr", r'\bbuf\.state\s*\+=\s*(\w+)\s*\*\s*(state\[[^\]]+\]\.rho\[nrh\])\s*;', r'op_assign_mul(&buf->state,&\2,\1,1);'),
-    Rule("c05.buf.evol", r'\bbuf\.op\s*=\s*op\.Evolve\s*\(\s*H0\s*\(\s*xi\s*,\s*nrh\s*\)\s*,\s*t\s*-\s*t_ini\s*\)\s*;',
-         r'{ struct SU_vector h0_; hook_H0(self,xi,nrh,&h0_); op_assign_evol(&buf->op,&h0_,op,t-t_ini,0); }'),
+    Rule("c05.buf.evol", r'\bbuf\.op\s*=\s*op\.Evolve\s*\(\s*H0\s*\(%s,%s\)\s*,%s\)\s*;' % (A, A, A),
+         r'{ struct SU_vector h0_; hook_H0(self,\1,\2,&h0_); op_assign_evol(&buf->op,&h0_,op,\3,0); }'),
     # averaging overloads: evolution buffer sized by the H0 it will hold, PrepareEvolve(buffer,tau,scale,avr) on that H0, Evolve(buffer), two scalar products
     Rule("c05.avg.bufsize.h0", r'std::unique_ptr<double\[\]>\s+evol_buf\s*\(\s*new\s+double\s*\[\s*H0\s*\(%s,%s\)\s*\.\s*GetEvolveBufferSize\s*\(\s*\)\s*\]\s*\)\s*;' % (A, A),
          r'double* evol_buf; { struct SU_vector hb_; hook_H0(self,\1,\2,&hb_); evol_buf=op_evolbuf(&hb_); }'),
@@ -322,9 +323,9 @@ SQUIDS_C05 = [
     Rule("c05.avg.node.ret", r'return\s+(state\[i\]\.rho\[nrh\])\s*\*\s*op\.Evolve\s*\(\s*evol_buf\.get\(\)\s*\)\s*;',
          r'{ struct SU_vector ev_; op_assign_fastevol(&ev_,op,evol_buf,0); return op_dot(&\1,&ev_); }'),
     Rule("c05.buf.dot", r'return\s+buf\.state\s*\*\s*buf\.op\s*;', 'return op_dot(&buf->state,&buf->op);'),
-    Rule("c05.node.h0", r'\bSU_vector\s+h0\s*=\s*H0\s*\(\s*x\[i\]\s*,\s*nrh\s*\)\s*;', 'struct SU_vector h0; hook_H0(self,x[i],nrh,&h0);'),
-    Rule("c05.node.ret", r'return\s+(state\[i\]\.rho\[nrh\])\s*\*\s*op\.Evolve\s*\(\s*h0\s*,\s*t\s*-\s*t_ini\s*\)\s*;',
-         r'{ struct SU_vector ev_; op_assign_evol(&ev_,&h0,op,t-t_ini,0); return op_dot(&\1,&ev_); }'),
+    Rule("c05.node.h0", r'\b(?:const\s+)?SU_vector\s+h0\s*=\s*H0\s*\(%s,%s\)\s*;' % (A, A), r'struct SU_vector h0; hook_H0(self,\1,\2,&h0);'),
+    Rule("c05.node.ret", r'return\s+(state\[i\]\.rho\[nrh\])\s*\*\s*op\.Evolve\s*\(\s*h0\s*,%s\)\s*;' % A,
+         r'{ struct SU_vector ev_; op_assign_evol(&ev_,&h0,op,\2,0); return op_dot(&\1,&ev_); }'),
     Rule("c05.interm", r'return\s+(\w+)\s*\*\s*(state\[xid\]\.rho\[nrh\])\s*\+\s*(\w+)\s*\*\s*(state\[xid\+1\]\.rho\[nrh\])\s*;',
          r'{ LOG(K_ADDRR,0,0,\1,ret,&\2,&\4,0,\3); return; }'),
 ]
@@ -357,6 +358,15 @@ RULESETS = {
     "pade": PADE,
     "padeb": PADE_B,
     "expm_tail": EXPM_TAIL,
+    "wrapapply": [   # whichever compound operation the wrapper performs is recorded; that it is the statement's own is assignProxy's obligation
+        Rule("wrap.assign", r'return\s*\(\s*target\s*=\s*source\s*\)\s*;', 'g_applied=0; su_assign_copy(target,source); return;'),
+        Rule("wrap.plus", r'return\s*\(\s*target\s*\+=\s*source\s*\)\s*;', 'g_applied=1; su_pluseq(target,source); return;'),
+        Rule("wrap.minus", r'return\s*\(\s*target\s*-=\s*source\s*\)\s*;', 'g_applied=2; su_minuseq(target,source); return;'),
+    ],
+    "minmax": [
+        Rule("std.min", r'\bstd::min\s*(?:<[^<>]*>)?\s*\(', 'SQ_MIN('),
+        Rule("std.max", r'\bstd::max\s*(?:<[^<>]*>)?\s*\(', 'SQ_MAX('),
+    ],
     "ellrules": [
         Rule("ell.holder.reset", r'\babsA\.reset\s*\(', 'holder_reset(absA,', min=1),
         Rule("ell.holder.arrow", r'\babsA->', '(&absA->m)->', min=2),
